@@ -35,3 +35,52 @@ META = {
         "level_note": "Trusts the C++ reference model, the read-back through m_*_iterate (cross-checked by len/peek/dequeue), clang ASan/UBSan; spec corners listed in DESIGN.md 8.2 are not judged.",
     },
 }
+
+CHECKS["C05"] = {
+    "stages": [A("map", "map1")],
+    "key_classes": ["growth", "iterate-with-removal", "itr-with-removal", "remove-with-wrapped-cluster", "update-on-dup"],
+    "assumptions": [
+        "keys passed to a map that neither copies nor owns them stay alive while the entry does; keys handed to a KEY_AUTOFREE (non-duplicating) map are allocated with the configured allocator and are owned by the map only if it stored that pointer",
+        "a visitor / iterator only removes the entry it is currently visiting (documented restriction of m_map_iterate)",
+        "destructor behaviour for a value overwritten through itr_set_data is not prescribed; re-putting the identical pointer is not a replacement",
+        "-ENOMEM from put (probe limit) is accepted as 'fails without effect' and verified to have none",
+    ],
+}
+
+CHECKS["C11"] = {
+    "stages": [A("bst", "bst1", exhaustive_stage=True)],
+    "key_classes": ["remove-two-children", "itr-remove", "default-cmp"],
+    "assumptions": [
+        "with the default comparator elements are opaque non-NULL pointer values that the library never dereferences",
+        "the user comparator is a consistent total order over the element keys",
+        "iterators are released with the allocator's free when abandoned",
+    ],
+}
+
+CHECKS["C10"] = {
+    "stages": [A("mem", "mem1", exhaustive_stage=True)],
+    "key_classes": ["nested-dtor", "out-of-order-release", "min-aligned-allocator"],
+    "assumptions": [
+        "the configured allocator returns memory aligned for max_align_t (16 bytes here), as malloc must; one harness allocator returns exactly that and never more",
+        "the memhook is installed before the first allocation",
+    ],
+}
+
+META["C05"] = {
+    "engine": "A-structs", "design_ref": "DESIGN.md section 3 (C05)",
+    "technique": "rapidcheck stateful model-based testing against std::map with hook-steered colliding/wrapping key pools",
+    "level_text": "Random operation sequences over all flag combinations with key pools steered (through the guarded hook) onto shared home slots at the table end/start, across growth; every step compared with a std::map model, visited-exactly-once for both iteration styles, destructor log and allocator accounting. Holds for explored sequences only.",
+    "level_note": "Trusts the std::map model, clang ASan/UBSan, the tracking allocator installed via m_set_memhook; the hook m_map_verif_slot only steers generation and classification (no oracle uses it).",
+}
+META["C10"] = {
+    "engine": "A-structs", "design_ref": "DESIGN.md section 3 (C10)",
+    "technique": "exhaustive size sweep + rapidcheck stateful testing against a refcount model with destructor/allocator logs",
+    "level_text": "Every size 0..4200 (thorough 0..8300) with two allocator alignments is checked for alignment/size/writability; random ref/unref/unrefp histories on populations with nested destructors are checked against an integer refcount model, destructor-before-free ordering and allocator balance.",
+    "level_note": "Trusts the refcount model, the tracking allocator (public memhook), ASan redzones for out-of-bounds detection.",
+}
+META["C11"] = {
+    "engine": "A-structs", "design_ref": "DESIGN.md section 3 (C11)",
+    "technique": "exhaustive insertion-order enumeration (K<=6/7) + rapidcheck stateful model-based testing against std::map",
+    "level_text": "All insertion orders of up to 6 (quick) / 7 (thorough) keys with every single removal by key and by iterator, plus random sequences over 32 keys with user and default comparator (far-apart 64-bit pointer values); sorted in-order, BST-consistent pre/post order, destructor identity and allocator accounting checked at every step.",
+    "level_note": "Trusts the std::map model under the mathematical order, ASan/UBSan, the tracking allocator.",
+}
